@@ -180,6 +180,35 @@ def gen_c11(tier, seed):
             k = r.choice(ACC)
             ops.append(acc_op(k, a, rand_val(r)))
         g.add(ops, name)
+    # reads with every access code (the answer must not depend on it), aligned and unaligned
+    for i in range(300 if tier == 'quick' else 8000):
+        base, size, name = r.choice(mems)
+        ops = ['ld:%x:%s' % (base + 0x40, ''.join('%02x' % r.randrange(256) for _ in range(32)))]
+        for _ in range(r.randrange(8, 30)):
+            a = base + 0x40 + r.randrange(0, 32)
+            k = r.choice(['rb', 'rh', 'rw', 'rh', 'rw'])
+            ops.append('%s:%x:%x' % (k, a, r.randrange(16)))
+            if r.random() < 0.2:
+                ops.append(acc_op(r.choice(['wb', 'wh', 'ww']), a, rand_val(r)))
+        g.add(ops, name + '-access-codes')
+    # host loads that run past the end of their device (a panic by design; the bytes that fit are stored), then guest
+    # writes of every width into ROM: ROM must still be read-only
+    for i in range(150 if tier == 'quick' else 4000):
+        base, size, name = r.choice(mems + [(0x0, 0x20000, 'rom')] * 2)
+        over = r.randrange(1, 9)
+        fit = r.randrange(0, 12)
+        la = base + size - fit
+        ops = ['lx:%x:%s' % (la, ''.join('%02x' % r.randrange(256) for _ in range(fit + over)))] if fit > 0 else \
+              ['lx:%x:%s' % (base + size - 4, ''.join('%02x' % r.randrange(256) for _ in range(4 + over)))]
+        for _ in range(r.randrange(6, 24)):
+            a = r.choice([0, 4, 0x100, 0x1fff0, 0x1fffc, r.randrange(0x20000)])
+            k = r.choice(ACC)
+            if k == 'wh':
+                a &= ~1
+            if k == 'ww':
+                a &= ~3
+            ops.append(acc_op(k, a, rand_val(r)))
+        g.add(ops, name + '-load-overrun')
     return g.result('Interleaved mixed-width reads/writes/instruction fetches on overlapping addresses in RAM, NVRAM and ROM '
                     '(device edges, unaligned addresses, ROM preloaded by the host), judged against a flat byte array.')
 
@@ -449,11 +478,16 @@ def gen_duart(prefix, tier, seed, nq, nt, flavour):
             if r.random() < 0.5:
                 ops.append('wb:200013:%x' % r.choice([0, 0x80]))
             ops.append('wb:%x:%x' % (0x200007 + ch, (code << 4) | r.randrange(16)))
+            loop = r.random() < 0.3
+            if loop:
+                # local loop-back (MR2 bits 7:6 = 10): transmitted characters come back to the channel's own receiver, paced
+                # like any other transmission
+                ops += ['wb:%x:10' % (0x20000b + ch), 'wb:%x:13' % (0x200003 + ch), 'wb:%x:%x' % (0x200003 + ch, 0x80 | r.randrange(16))]
             for _ in range(r.randrange(2, 6)):
                 ops.append('%s:%x' % ('qa' if ch == 0 else 'qb', dg.byte()))
             gran = r.choice([50, 1000, 50000, 1000000, 217013, 4000000])
             for k in range(r.randrange(10, 60)):
-                if r.random() < 0.2:
+                if r.random() < (0.5 if loop else 0.2):
                     ops += ['rb:%x' % (0x200007 + ch), 'wb:%x:%x' % (0x20000f + ch, dg.byte())]
                 if r.random() < 0.2:
                     ops += ['rb:%x' % (0x200007 + ch), 'rb:%x' % (0x20000f + ch)]
